@@ -65,15 +65,15 @@ def run(ctx):
                         "saved blocks carry only transactions inside their window (what verifyTxs admits); queries are asked about the stable block and its descendants"]
 
     # ---------------- layer 2: through the engine (real blocks from the real assembler offered to a real chain.BlockChain)
-    # Every behaviour needs a fresh real node; the store leaks ~4 MB per opened database, so a replay process is kept below
-    # ~400 behaviours: the small graphs are replayed in full (thorough) and the large ones by a seeded sample of behaviours.
+    # Every behaviour needs a fresh real node; the store leaks ~4 MB per opened database, so a replay process runs at most
+    # 300 behaviours (chunk).
     negative(ctx, "MCTxGuardChain_negdup.cfg", ("AtMostOnce",), module="MCTxGuardChain")
     negative(ctx, "MCTxGuardChain_negenc.cfg", ("AtMostOnce",), module="MCTxGuardChain")
 
     def l2(cfg, name, what, limit):
         d = ctx.path(name + ".dot")
         ctx.tlc_exhaustive("MCTxGuardChain", cfg, timeout=900, dump=d)
-        fs, sm = ctx.replay("replayprot", graph=d, shards=12, maxlen=30, limit=limit, name=name, timeout=2400)
+        fs, sm = ctx.replay("replayprot", graph=d, shards=12, maxlen=30, limit=limit, name=name, timeout=2400, chunk=300)
         acc = ctx.validate("TraceTxGuardChain", "TraceTxGuardChain.cfg", fs, what="layer 2: " + what, timeout=1800)
         ctx.extra.setdefault("l2_graphs", []).append(dict(cfg=cfg, edges=sm["graph_edges"], behaviours_replayed=sm["behaviours"],
                                                           behaviours_total=sm["behaviours_total"], steps_on_real_code=sm["steps"], accepted=acc))
@@ -84,15 +84,15 @@ def run(ctx):
     # window / pruning / restart-reload boundaries: 3 offered blocks, lists {<<>>, <<t>>}, times {30, 1830}
     l2("MCTxGuardChain_windowq.cfg", "l2_window", "window/pruning/restart boundaries", 0)
     if not ctx.quick():
-        l2("MCTxGuardChain_thorough.cfg", "l2_placements_full", "full menu and time grid (sample of behaviours)", 3000)
-        l2("MCTxGuardChain_window.cfg", "l2_window_full", "3 blocks, boxes, 4 times (sample of behaviours)", 3000)
+        l2("MCTxGuardChain_thorough.cfg", "l2_placements_full", "full menu and time grid", 0)
+        l2("MCTxGuardChain_window.cfg", "l2_window_full", "3 blocks, boxes, 4 times (seeded sample of behaviours)", 8000)
     # the engine's own miner with a pool filled by the engine's fork bookkeeping (recording driver)
     mine = ctx.path("traces", "mine.ndjson")
     ctx.drive("replayprot-mine", ["-out", mine], env={"VERIF_SCRATCH_DIR": ctx.path("work", "mine", ".keep")[:-6]})
     ctx.validate("TraceTxGuardChain", "TraceTxGuardChain.cfg", [mine], what="layer 2: DPoVP.MineBlock after side-fork blocks", timeout=600)
     # longer histories (4 offered blocks, full menu / time grid) by simulation
     sim = ctx.tlc_simulate("MCTxGuardChain", "MCTxGuardChain_sim.cfg", num=160 if ctx.quick() else 2000, depth=9, prefix="l2sim")
-    files3, _ = ctx.replay("replayprot", sim=sim, shards=12, name="replayprot_sim", timeout=2400)
+    files3, _ = ctx.replay("replayprot", sim=sim, shards=12, name="replayprot_sim", timeout=2400, chunk=300)
     ctx.validate("TraceTxGuardChain", "TraceTxGuardChain.cfg", files3, what="layer 2: simulated 4-block histories", timeout=1800)
     ctx.assumptions += ["layer 2: 2 deputies, 30 s slots, block timestamps genesis + {30, 60, 1830, 1860, 1890} s; t/boxes expire at genesis+1830, u at genesis+1860",
                         "effects are observed as recipient balance / amount in the state of each block (builder and node under test)",
